@@ -96,6 +96,11 @@ func c04(w *World) {
 		nconn = 1 + w.W.Draw(4)
 	}
 	slow := []int{0, 0, 3, 1}[w.W.Draw(4)]
+	wdl := time.Minute
+	if w.F.Chance(1, 4) {
+		wdl = time.Duration(100+w.F.Draw(400)) * time.Millisecond // short enough to expire while the peer does not read
+	}
+	w.Cfg("write_deadline", wdl.String())
 	w.Cfg("role", role)
 	w.Cfg("handler_buf", hbuf)
 	w.Cfg("conn_buf", cbuf)
@@ -106,7 +111,7 @@ func c04(w *World) {
 	fac := &recFactory{w: w, buf: hbuf, slow: slow}
 	if role == "acceptor" {
 		ln := w.Net.Listen()
-		acc := simplefixgo.NewAcceptor(ln, fac, time.Minute, func(h simplefixgo.AcceptorHandler) {
+		acc := simplefixgo.NewAcceptor(ln, fac, wdl, func(h simplefixgo.AcceptorHandler) {
 			rh := h.(*recHandler)
 			h.HandleIncoming(simplefixgo.AllMsgTypes, rh.onIncoming)
 		})
@@ -126,7 +131,7 @@ func c04(w *World) {
 		rh := &recHandler{DefaultHandler: simplefixgo.NewInitiatorHandler(context.Background(), "35", hbuf), w: w, slowEvery: slow}
 		rh.HandleIncoming(simplefixgo.AllMsgTypes, rh.onIncoming)
 		fac.handlers = append(fac.handlers, rh)
-		ini := simplefixgo.NewInitiator(a, rh, cbuf, time.Minute)
+		ini := simplefixgo.NewInitiator(a, rh, cbuf, wdl)
 		simrt.GoHarness("initiator.Serve", func() { _ = ini.Serve() })
 		conns[0] = &c04conn{peer: NewPeer(w, b, "peer0")}
 		closeAll = func() { ini.Close(); conns[0].peer.C.CloseNow() }
@@ -255,7 +260,7 @@ func c04(w *World) {
 
 	// ---- outbound: concurrent hand-offs, paced reader ----
 	if len(w.Viol) == 0 {
-		c04outbound(w, fac.handlers, conns)
+		c04outbound(w, fac.handlers, conns, wdl)
 	}
 	closeAll()
 	simrt.Sleep(20 * time.Millisecond)
@@ -278,7 +283,11 @@ type c04conn struct {
 // verifyDelivered: what a handler was given is a prefix of (final: equal to) what
 // exactly one connection sent, byte for byte, at both observation points.
 func verifyDelivered(w *World, h *recHandler, conns []*c04conn, final bool) {
-	for name, list := range map[string][][]byte{"ServeIncoming": h.served, "incoming-callback": h.got} {
+	for _, obs := range []struct {
+		name string
+		list [][]byte
+	}{{"ServeIncoming", h.served}, {"incoming-callback", h.got}} { // fixed order: never range over a map here
+		name, list := obs.name, obs.list
 		if len(list) == 0 {
 			continue
 		}
@@ -334,7 +343,7 @@ type handoff struct {
 // c04outbound: 1-4 tasks hand unique payloads to each handler while the peer reads at
 // a drawn pace; the captured stream must be exactly those payloads, whole, each once,
 // in hand-off order.
-func c04outbound(w *World, hs []*recHandler, conns []*c04conn) {
+func c04outbound(w *World, hs []*recHandler, conns []*c04conn, wdl time.Duration) {
 	for hi, h := range hs {
 		// find the peer of this handler: by the connection it served, else unused peers in order
 		var p *Peer
@@ -355,12 +364,13 @@ func c04outbound(w *World, hs []*recHandler, conns []*c04conn) {
 		per := 1 + w.W.Draw(6)
 		var offs []*handoff
 		done := 0
-		stall := w.W.Chance(1, 3)
+		stall := w.W.Chance(1, 3) || wdl < time.Minute
 		if stall {
 			p.C.SetInCap(64 + w.W.Draw(512))
 			p.C.Stall(true)
 			w.Probe("reader_stalled")
 		}
+		expire := stall && wdl < time.Minute // the peer stays away longer than the write deadline
 		for t := 0; t < nt; t++ {
 			t := t
 			simrt.GoHarness("handoff", func() {
@@ -379,7 +389,11 @@ func c04outbound(w *World, hs []*recHandler, conns []*c04conn) {
 			})
 		}
 		if stall {
-			simrt.Sleep(time.Duration(1+w.W.Draw(2000)) * time.Millisecond)
+			d := time.Duration(1+w.W.Draw(2000)) * time.Millisecond
+			if expire {
+				d = wdl + time.Duration(w.W.Draw(int(2*wdl/time.Millisecond)))*time.Millisecond
+			}
+			simrt.Sleep(d)
 			p.C.Stall(false)
 			p.C.SetInCap(-1)
 		}
@@ -388,8 +402,24 @@ func c04outbound(w *World, hs []*recHandler, conns []*c04conn) {
 		simrt.Settle()
 		out := p.Stream()[before:]
 		msgs, rest := Split(out)
+		died := p.EOF || w.Faults["write_deadline"] > 0
 		if len(rest) != 0 {
-			w.Violate("outbound-torn", "trailing", fmt.Sprintf("outbound stream ends with an incomplete message: %s", short(rest)))
+			// an incomplete tail is legitimate only when the connection died in the middle of a write
+			// (deadline expired after part of the message had been taken); it must then be the
+			// beginning of a handed-off message and nothing may follow it
+			okTail := false
+			if died {
+				for _, o := range offs {
+					if bytes.HasPrefix(o.payload, rest) {
+						okTail = true
+					}
+				}
+			}
+			if !okTail {
+				w.Violate("outbound-torn", "trailing", fmt.Sprintf("outbound stream ends with an incomplete message: %s", short(rest)))
+			} else {
+				w.Probe("torn_tail_after_write_deadline")
+			}
 		}
 		pos := map[string]int{}
 		for i, m := range msgs {
@@ -405,11 +435,23 @@ func c04outbound(w *World, hs []*recHandler, conns []*c04conn) {
 				continue
 			}
 			okCount++
-			if _, ok := pos[string(o.payload)]; !ok {
+			if _, ok := pos[string(o.payload)]; !ok && !died {
 				w.Violate("outbound-missing-or-torn", "", fmt.Sprintf("a handed-off message is not on the wire whole: %s; wire has %d message(s)", short(o.payload), len(msgs)))
 			}
 		}
-		if len(msgs) > okCount && len(w.Viol) == 0 {
+		for _, m := range msgs {
+			known := false
+			for _, o := range offs {
+				if bytes.Equal(o.payload, m) {
+					known = true
+				}
+			}
+			if !known {
+				w.Violate("outbound-garbled", "", fmt.Sprintf("the outbound stream contains a message nobody handed off (torn or interleaved bytes): %s", short(m)))
+				break
+			}
+		}
+		if len(msgs) > okCount && len(w.Viol) == 0 && !died {
 			w.Violate("outbound-extra", "", fmt.Sprintf("%d messages on the wire, %d were handed off", len(msgs), okCount))
 		}
 		for _, a := range offs {
